@@ -27,11 +27,11 @@ func (o *jitterObserver) OnCopySolution(nextroute.Solution) {
 	}
 }
 
-func (o *jitterObserver) OnNewSolution(nextroute.Model)                                          {}
-func (o *jitterObserver) OnNewSolutionCreated(nextroute.Solution)                                {}
-func (o *jitterObserver) OnCopiedSolution(nextroute.Solution)                                    {}
-func (o *jitterObserver) OnCheckConstraint(nextroute.ModelConstraint, nextroute.CheckedAt)       {}
-func (o *jitterObserver) OnSolutionConstraintChecked(nextroute.ModelConstraint, bool)            {}
+func (o *jitterObserver) OnNewSolution(nextroute.Model)                                    {}
+func (o *jitterObserver) OnNewSolutionCreated(nextroute.Solution)                          {}
+func (o *jitterObserver) OnCopiedSolution(nextroute.Solution)                              {}
+func (o *jitterObserver) OnCheckConstraint(nextroute.ModelConstraint, nextroute.CheckedAt) {}
+func (o *jitterObserver) OnSolutionConstraintChecked(nextroute.ModelConstraint, bool)      {}
 func (o *jitterObserver) OnStopConstraintChecked(nextroute.SolutionStop, nextroute.ModelConstraint, bool) {
 }
 func (o *jitterObserver) OnVehicleConstraintChecked(nextroute.SolutionVehicle, nextroute.ModelConstraint, bool) {
